@@ -206,6 +206,28 @@ func (g *Gen) flowScenarios(p *ps.Program) []*ps.Scenario {
 		sc = mk(allOK)
 		sc.Cancel = fmt.Sprintf("in:%d", g.R.Intn(len(p.Tasks)))
 		out = append(out, sc)
+		// every predicate false plus an in-flight cancel by a task that has no predicate: tasks are
+		// gated off on the workers while the caller leaves through Wait's context arm
+		{
+			ch := append([]int(nil), allOK...)
+			anyPred := false
+			for i, s := range slots {
+				if s.pred {
+					ch[i], anyPred = 1, true
+				}
+			}
+			var free []int
+			for _, t := range p.Tasks {
+				if !t.Pred {
+					free = append(free, t.K)
+				}
+			}
+			if anyPred && len(free) > 0 {
+				sc = mk(ch)
+				sc.Cancel = fmt.Sprintf("in:%d", free[g.R.Intn(len(free))])
+				out = append(out, sc)
+			}
+		}
 		// a failure plus an in-flight cancel
 		ch := append([]int(nil), allOK...)
 		i := g.R.Intn(len(slots))
@@ -397,6 +419,21 @@ func (g *Gen) parScenarios(p *ps.Program) []*ps.Scenario {
 		sc = random()
 		sc.Cancel = fmt.Sprintf("in:%d", g.R.Intn(len(p.PTasks)))
 		out = append(out, sc)
+	}
+	// an element of a slice with an End function cancels the context (all functions succeed): the End
+	// function depends on that element and must not start
+	for _, s := range p.Slices {
+		if s.End && s.Len > 0 && s.Len <= 300 {
+			sc := base()
+			sc.Cancel = fmt.Sprintf("sl:%d:%d", s.S, s.Len-1)
+			out = append(out, sc)
+			if s.Len > 1 {
+				sc = base()
+				sc.Cancel = fmt.Sprintf("sl:%d:%d", s.S, g.R.Intn(s.Len))
+				out = append(out, sc)
+			}
+			break
+		}
 	}
 	if !NeedsCur(p) {
 		sc := base()
